@@ -252,7 +252,6 @@ func (p *Program) funcAliases(b *Baseline, current map[string]*ssa.Function) map
 	return out
 }
 
-
 // closureAliases: the literals of one function are named after the local
 // variable they are bound to ("(*Raft).electSelf$askPeer"); renaming that
 // variable must not read as a missing anchor. Within one parent, a baseline
